@@ -536,25 +536,34 @@ func c10SrcIndex(r *rt.Run, failAt bool) {
 
 func runC10(r *rt.Run, tier string) {
 	t := r.T
-	kind := t.Draw(5, "c10.kind")
-	failAt := t.Bool(1, 6, "config.faulty")
-	if failAt {
-		r.Stats["config.faulty"]++
-	} else {
-		r.Stats["config.faultfree"]++
+	// 1..3 documents of (usually) different kinds are parsed one after the
+	// other in the same run: what one kind leaves behind in the process must
+	// not change how the next one is read
+	ndocs := 1 + t.Weighted([]int{3, 2, 1}, "c10.ndocs")
+	if ndocs > 1 {
+		r.Probe("several-document-kinds-in-one-run")
 	}
-	r.Stats["kind."+[]string{"dsc", "changes", "control", "Packages", "Sources"}[kind]]++
-	switch kind {
-	case 0:
-		c10DSC(r, failAt)
-	case 1:
-		c10Changes(r, failAt)
-	case 2:
-		c10Control(r, failAt)
-	case 3:
-		c10BinIndex(r, failAt)
-	case 4:
-		c10SrcIndex(r, failAt)
+	for i := 0; i < ndocs; i++ {
+		kind := t.Draw(5, "c10.kind")
+		failAt := i == 0 && t.Bool(1, 6, "config.faulty")
+		if failAt {
+			r.Stats["config.faulty"]++
+		} else {
+			r.Stats["config.faultfree"]++
+		}
+		r.Stats["kind."+[]string{"dsc", "changes", "control", "Packages", "Sources"}[kind]]++
+		switch kind {
+		case 0:
+			c10DSC(r, failAt)
+		case 1:
+			c10Changes(r, failAt)
+		case 2:
+			c10Control(r, failAt)
+		case 3:
+			c10BinIndex(r, failAt)
+		case 4:
+			c10SrcIndex(r, failAt)
+		}
 	}
 }
 
@@ -570,5 +579,5 @@ func init() {
 		},
 		Assumptions: []string{"the .deb control file kind of this property is exercised by C14's check", "two-part architecture names are compared on OS and CPU only"},
 	})
-	propProbes["C10"] = []string{"line-longer-than-4096-bytes", "caller-bufio-smaller-than-4096", "via-file-entry-point"}
+	propProbes["C10"] = []string{"several-document-kinds-in-one-run", "line-longer-than-4096-bytes", "caller-bufio-smaller-than-4096", "via-file-entry-point"}
 }
